@@ -105,8 +105,15 @@ class Interp:
                 ty = parse_ty(c.params[p])
             else:
                 if p not in c.params:
-                    raise Unsupported("%s: parameter %s has no declared type" % (u.qname, p))
-                ty = u.T(c.params[p])
+                    # a parameter the contract does not know (added by a code change): typed from a literal default
+                    dflt = dict(zip(names[len(names) - len(a.defaults):], a.defaults)).get(p)
+                    lit = {bool: "bool", int: "int", float: "real"}.get(type(getattr(dflt, "value", None))) \
+                        if isinstance(dflt, ast.Constant) else None
+                    if lit is None:
+                        raise Unsupported("%s: parameter %s has no declared type" % (u.qname, p))
+                    ty = parse_ty(lit)
+                else:
+                    ty = u.T(c.params[p])
             v = z3.Const("p_" + p, sort_of(ty))
             st.locals[p] = Val(v, ty)
             st.pc += self.typing_facts(v, ty, st.next)
